@@ -128,6 +128,30 @@ def install():
         finally:
             _depth[0] -= 1
 
+    from rsome import dro as _dro
+    orig_rule = _dro.Model.rule_var
+
+    @functools.wraps(orig_rule)
+    def rule_var(self):
+        # the formulation's column map, logged when it is (re)built: static[k][s][i] and slopes[k][s] = [[i, c, col]..]
+        # for the traced variables k = 1.. in trace order
+        fresh = self.var_ev_list is None
+        out = orig_rule(self)
+        r = _models.get(id(self))
+        if fresh and r is not None and r['vars']:
+            try:
+                from harness import colmap
+                cm = colmap.column_map(self, out)
+                pos = {id(d): q for q, d in enumerate(self.dec_vars)}
+                order = sorted(r['vars'].items(), key=lambda kv: kv[1])
+                r['events'].append(dict(ev='rule_var', v=0, out='ok',
+                                        static=[cm['static'][pos[i]] for i, _ in order],
+                                        slopes=[cm['slopes'][pos[i]] for i, _ in order]))
+            except Exception as e:   # projection failed: recorded, the suite reports it as a machinery problem
+                r['events'].append(dict(ev='rule_var', v=0, out='unprojectable:%s' % type(e).__name__, static=[], slopes=[]))
+        return out
+
+    _dro.Model.rule_var = rule_var
     lp.DecVar.evtadapt = evtadapt
     lp.DecVar.__getitem__ = getitem
     lp.DecVarSub.affadapt = sub_affadapt
@@ -140,7 +164,7 @@ def traces():
     for mid in _order:
         r = _models[mid]
         evs = [e for e in r['events']]
-        if not any(e['ev'] != 'mk_slice' for e in evs):
+        if not any(e['ev'] not in ('mk_slice', 'rule_var') for e in evs):
             continue
         nr = max([e.get('nr', 0) for e in evs] + [1])
         out.append(dict(ns=r['ns'], sizes=list(r['sizes']), vtypes=list(r['vtypes']), nr=nr, nslices=r['nslices'], events=evs))
